@@ -111,7 +111,7 @@ def check_subsamples(run, cat, truth, slabs, cleaned, load_AB, masks=None, desc=
             ok = (got.astype(np.int64) == pr['lagr_idx']).all(axis=1) if len(got) else np.ones(0, bool)
         elif col == 'lagr_pos':
             e = pr['lagr_idx'].astype(np.float64) * (box / ppd) - box / 2
-            ok = (np.abs(got.astype(np.float64) - e) <= 4 * float(np.spacing(np.float32(box)))).all(axis=1) if len(got) else np.ones(0, bool)
+            ok = (np.abs(got.astype(np.float64) - e) <= 4 * float(np.spacing(np.float32(box))) + 4 * np.spacing(np.abs(e).astype(np.float32)).astype(np.float64)).all(axis=1) if len(got) else np.ones(0, bool)
         else:
             return run.violation(f'{key_prefix}-unexpected-column', dict(column=col, **desc))
         run.count('subsample_values_compared', got.size)
